@@ -82,7 +82,7 @@ func VerifC15_WriteValidation() {
 	_, beforeDefaults, _ := s.ConfigEntry(nil, structs.ServiceDefaults, "other", nil)
 	_, beforeResolver, _ := s.ConfigEntry(nil, structs.ServiceResolver, "other", nil)
 	var err error
-	op := verifrt.Choice("write", 4)
+	op := verifrt.Choice("write", 6)
 	switch op {
 	case 0:
 		err = vEnsure(s, next(), &structs.ServiceConfigEntry{Kind: structs.ServiceDefaults, Name: "other", Protocol: vProto("other.newproto")})
@@ -93,8 +93,14 @@ func VerifC15_WriteValidation() {
 	case 3:
 		err = vEnsure(s, next(), &structs.ServiceResolverConfigEntry{Kind: structs.ServiceResolver, Name: "other",
 			Redirect: &structs.ServiceResolverRedirect{Service: "main"}})
+	case 4:
+		// overwrite (not delete) the resolver with an empty one: the subset others refer to disappears
+		err = vEnsure(s, next(), &structs.ServiceResolverConfigEntry{Kind: structs.ServiceResolver, Name: "other"})
+	case 5:
+		err = vEnsure(s, next(), &structs.ServiceResolverConfigEntry{Kind: structs.ServiceResolver, Name: "other",
+			Subsets: map[string]structs.ServiceResolverSubset{"v3": {Filter: "Service.Meta.version == v3"}}})
 	}
-	name := []string{"change-protocol", "delete-resolver", "delete-defaults", "redirect-to-referrer"}[op]
+	name := []string{"change-protocol", "delete-resolver", "delete-defaults", "redirect-to-referrer", "blank-resolver", "other-subset-resolver"}[op]
 	if err == nil {
 		verifrt.Assert("C15."+name+".accepted-write-keeps-every-chain-compilable", vCompiles(s, "main") && vCompiles(s, "other"))
 		verifrt.Reached("accepted")
